@@ -245,8 +245,8 @@ PROPS["C08"] = dict(
                "each read_exact covers exactly the designated range after an absolute seek to its start, open performs at most the ident/tail/shdr[0]/two-table reads and clears its cache, and no panic edge (expect, index, overflow assert, unwrap) is reachable under the cache invariant.",
     level_note="Outside: allocations inside std's HashMap/Vec growth (summarised), the Vec<SectionHeader>/Vec<ProgramHeader> built by collect() (at most bytes_read/entsize entries, argued in DESIGN), looped accessors. 64-bit usize.",
     groups=[
-        M(["L1", "L2", "L7"], ["C08."], bounds="all u64 ranges / header fields; all straight-line accessors x both classes; looped accessors on tables of 1..2 entries"),
-        M(["L3"], ["C08."], tier="thorough", bounds="open_stream with all header fields symbolic"),
+        M(["L1", "L2", "L3", "L7"], ["C08."], bounds="all u64 ranges / header fields; all straight-line accessors x both classes; open_stream with all header fields symbolic; looped accessors on tables of 1..2 entries"),
+        M(["L7both"], ["C08."], tier="thorough", bounds="looped accessors, both classes"),
     ],
     assumptions=MIRSYM_ASSUME,
 )
@@ -259,8 +259,8 @@ PROPS["C17"] = dict(
                "and later answers are those of a fault-free stream (C07).",
     level_note="Premature EOF and short reads are the Err arm of read_exact's contract summary. Outside: looped accessors, panics inside std. 64-bit usize.",
     groups=[
-        M(["L1", "L2", "L7"], ["C17."], bounds="all fault schedules per call; all u64 ranges; all straight-line accessors x both classes; looped accessors on tables of 1..2 entries"),
-        M(["L3"], ["C17."], tier="thorough", bounds="open_stream under all fault schedules"),
+        M(["L1", "L2", "L3", "L7"], ["C17."], bounds="all fault schedules per call; all u64 ranges; all straight-line accessors x both classes; open_stream; looped accessors on tables of 1..2 entries"),
+        M(["L7both"], ["C17."], tier="thorough", bounds="looped accessors, both classes"),
     ],
     assumptions=MIRSYM_ASSUME,
 )
